@@ -145,6 +145,9 @@ const composePrefix = "github.com/compose-spec/compose-go/v2/"
 
 var closureRe = regexp.MustCompile(`(\.func\d+|\.\d+|\.gowrap\d+)+$`)
 
+// type arguments of generic functions (`vertex[go.shape.…]`) are not part of a stable key
+var typeArgsRe = regexp.MustCompile(`\[[^\]]*\]`)
+
 // raceKeys extracts one stable key per race report: the innermost compose-go function of the racing WRITE access(es).
 func raceKeys(stderr string) ([]string, map[string]string) {
 	seen := map[string]string{}
@@ -170,7 +173,7 @@ func raceKeys(stderr string) ([]string, map[string]string) {
 					if j := strings.LastIndex(fn, "("); j > 0 {
 						fn = fn[:j]
 					}
-					site = closureRe.ReplaceAllString(fn, "")
+					site = typeArgsRe.ReplaceAllString(closureRe.ReplaceAllString(fn, ""), "")
 					break
 				}
 			}
